@@ -28,6 +28,6 @@ fuzz_target!(|data: &[u8]| {
     let mdc: Vec<(String, String)> = (0..u.int_in_range(0..=3usize).unwrap_or(0)).map(|_| (text(&mut u), text(&mut u))).collect();
     let thread = text(&mut u).replace('\0', "0");
     let msg: Vec<String> = (0..u.int_in_range(1..=3usize).unwrap_or(1)).map(|_| text(&mut u)).collect();
-    let case = lv::c12::Case { rec: Rec { level, msg, target, module, file, line, mdc }, thread: Some(thread), script, unnamed_thread: false, prior_failure, ctor, prior_shifted_mdc: u.ratio(1, 3).unwrap_or(false) };
+    let case = lv::c12::Case { rec: Rec { level, msg, target, module, file, line, mdc }, thread: Some(thread), script, unnamed_thread: false, prior_failure, ctor, prior_shifted_mdc: u.ratio(1, 3).unwrap_or(false), late_mdc: u.ratio(1, 3).unwrap_or(false) };
     report("C12", lv::c12::check(&case, &mut lv::engine::Obs::default()));
 });
